@@ -22,7 +22,7 @@ import time
 import z3
 
 from pyvc.contract import VC, Res, FnTask
-from pyvc.values import State, Sym, Ref, HObj, HList, HDict, Exc, Obj, fresh, fresh_name, sym
+from pyvc.values import State, Sym, Ref, HObj, HList, HDict, Exc, Obj, fresh, fresh_name, sym, Unsupported
 from pyvc.smt import to_term, model_value, host_const
 from pyvc.interp import Raised
 from pyvc import abstract as A
@@ -203,6 +203,135 @@ def cases_truncate(tier, seed):
                         yield {"s": s, "length": length, "killwords": kw, "end": end, "leeway": arg, "policy_leeway": pol}
 
 
+# ---- truncate with Markup operands: the length contract on the returned string ---------------------------
+f_len = z3.Function("py_len", Obj, z3.IntSort())
+f_escaped = z3.Function("markupsafe_escape", Obj, Obj)
+
+
+class TruncateMixed(VC):
+    """The length clause for every Markup/plain combination of text and `end` (opaque strings with a length):
+    len(s) <= length + leeway -> s itself; otherwise len(result) <= length.
+    Dependency specs: len(s[:n]) = min(n, len(s)) for n >= 0; rsplit(" ", 1)[0] is no longer than its receiver;
+    a + b has length len(a) + len(b), where a Markup operand makes the other one pass through escape() first, and
+    len(escape(x)) >= len(x) (each of & < > ' " becomes a longer character reference)."""
+    prop = "C23"
+    target = "jinja2.filters:do_truncate"
+
+    def __init__(self, s_kind, end_kind):
+        self.kinds = (s_kind, end_kind)
+        super().__init__("C23", f"C23.truncate.mixed[s={s_kind},end={end_kind}]")
+
+    def run(self, tier, seed):
+        rs = VC.run(self, tier, seed)
+        for r in rs:
+            r.name = r.name.replace(self.name, "C23.truncate.mixed", 1)
+        return rs
+
+    @staticmethod
+    def text(name, markup):
+        return fresh(name, "obj", {"text", "markup"} if markup else {"text"})
+
+    def configure(self, I):
+        from pyvc.values import BoundMethod
+        T = TruncateMixed
+        mk = lambda v: isinstance(v, Sym) and "markup" in v.tags  # noqa: E731
+
+        def sized(st, v):
+            st.assume(f_len(v.t) >= 0)
+            return v
+
+        I.specs["len_obj"] = lambda I_, st, args, kwargs, node: [(st, Sym(f_len(sized(st, args[0]).t), "int"))]
+
+        def getslice(I_, st, args, kwargs, node):
+            recv, (lo, hi, step) = args
+            if lo is not None or step is not None:
+                raise Unsupported("only s[:n] is specified", node)
+            n = to_term(hi, "int")
+            r = sized(st, T.text("slice", mk(recv)))
+            st.assume(z3.Implies(n >= 0, f_len(r.t) == z3.If(n < f_len(recv.t), n, f_len(recv.t))))
+            return [(st, r)]
+
+        I.specs["getslice_obj"] = getslice
+
+        def getattr_obj(I_, st, args, kwargs, node):
+            return [(st, BoundMethod(args[0], args[1]))]
+
+        I.specs["getattr_obj"] = getattr_obj
+
+        def method_obj(I_, st, args, kwargs, node):
+            recv, name = args[0], args[1]
+            if name != "rsplit":
+                return None
+            out = []
+            for k in (1, 2):
+                s1 = st.fork()
+                parts = [sized(s1, T.text(f"part{i}", mk(recv))) for i in range(k)]
+                s1.assume(f_len(parts[0].t) <= f_len(recv.t))
+                out.append((s1, s1.alloc(HList(items=parts))))
+            return out
+
+        I.specs["method_obj"] = method_obj
+
+        def add(I_, st, args, kwargs, node):
+            a, b = args
+            markup = mk(a) or mk(b)
+            la, lb = [], []
+            for x, acc in ((a, la), (b, lb)):
+                if markup and not mk(x):
+                    e = f_escaped(x.t)
+                    st.assume(f_len(e) >= f_len(x.t))
+                    acc.append(e)
+                else:
+                    acc.append(x.t)
+            r = sized(st, T.text("cat", markup))
+            st.assume(f_len(r.t) == f_len(la[0]) + f_len(lb[0]))
+            return [(st, r)]
+
+        I.specs[("binop", ast.Add)] = add
+
+    def setup(self, I, st):
+        self.s, self.end = self.text("s", self.kinds[0] == "M"), self.text("end", self.kinds[1] == "M")
+        self.length, self.leeway, self.kill = sym("length", "int"), sym("leeway", "int"), sym("killwords", "bool")
+        st.assume(f_len(self.s.t) >= 0, f_len(self.end.t) >= 0, self.length.t >= f_len(self.end.t), self.leeway.t >= 0,
+                  to_term(self.leeway, "obj") != host_const(None))
+        pol = st.alloc(HDict(items={"truncate.leeway": sym("policy_leeway", "int")}), initial=True)
+        env = A.obj(st, jinja2.Environment, "env", fields={"policies": pol})
+        return [env, self.s, self.length, self.kill, self.end, self.leeway], {}
+
+    def p_length(self, pre, out):
+        if out.raised:
+            return False
+        fits = f_len(self.s.t) <= self.length.t + self.leeway.t
+        r = to_term(out.value, "obj")
+        return z3.And(z3.Implies(fits, r == self.s.t), z3.Implies(z3.Not(fits), f_len(r) <= self.length.t))
+
+    posts = [("length", p_length)]
+
+    def concretize(self, model, pre, out):
+        return {"s_markup": self.kinds[0] == "M", "end_markup": self.kinds[1] == "M", "killwords": bool(model_value(model, self.kill.t))}
+
+    def finding_key(self, res):
+        return f"s={self.kinds[0]},end={self.kinds[1]}"
+
+    def replay(self, w):
+        return check_truncate_mixed(w)
+
+
+def check_truncate_mixed(w):
+    from markupsafe import Markup
+    env = jinja2.Environment()
+    worst = (False, "")
+    for text, end, length in (("a" * 30, " & more", 10), ("word " * 10, " >>", 12), ("<" * 30, "...", 10), ("a < b & c > d " * 3, "\"'", 8)):
+        s = Markup(text) if w["s_markup"] else text
+        e = Markup(end) if w["end_markup"] else end
+        r = F.do_truncate(env, s, length, w.get("killwords", True), e, 0)
+        d = f"do_truncate({s!r}, {length}, {w.get('killwords', True)}, {e!r}, 0) = {r!r} of length {len(r)}"
+        if len(r) > length:
+            return (True, d + f" > {length}")
+        worst = (False, d)
+    return worst
+
+
 # =====================================================================================
 # do_int / do_float : totality
 # =====================================================================================
@@ -375,6 +504,9 @@ def replay_conv(w):
 O2 = lambda name: z3.Function(name, Obj, Obj, Obj)  # noqa: E731
 f_pow, f_mul, f_div, f_round = O2("py_pow"), O2("py_mul"), O2("py_truediv"), O2("py_round")
 f_ceil, f_floor = z3.Function("math_ceil", Obj, Obj), z3.Function("math_floor", Obj, Obj)
+f_tofloat = z3.Function("py_float", Obj, Obj)
+f_isfloat = z3.Function("is_float", Obj, z3.BoolSort())
+f_nonfinite = z3.Function("is_inf_or_nan", Obj, z3.BoolSort())
 
 
 def _unvalidated_math_attr(*a):  # stands for getattr(math, <a name outside the documented three>)
@@ -400,12 +532,49 @@ class Round(VC):
                 return [(st, v)]
             return h
 
+        def with_fact(h, fact):
+            def g(I_, st, args, kwargs, node):
+                rs = h(I_, st, args, kwargs, node)
+                for s1, v in rs:
+                    s1.assume(fact(v, args))
+                return rs
+            return g
+
+        def to_int(name, fn):
+            # math.ceil / math.floor return an int and cannot convert a non-finite float:
+            # OverflowError (infinity) / ValueError (nan)  [Python library reference, math]
+            base = rec(name, fn)
+
+            def h(I_, st, args, kwargs, node):
+                out = []
+                for s1, bad in I_.fork_bool(st, f_nonfinite(to_term(args[0], "obj"))):
+                    if bad:
+                        e = Exc(OverflowError, ("cannot convert a non-finite float to integer",), origin=getattr(node, "lineno", None))
+                        A.call_event(s1, name, args, kwargs, e, node)
+                        out.append((s1, Raised(e)))
+                    else:
+                        out += base(I_, s1, args, kwargs, node)
+                return out
+            return h
+
         I.specs[("binop", ast.Pow)] = rec("pow", f_pow)
         I.specs[("binop", ast.Mult)] = rec("mul", f_mul)
-        I.specs[("binop", ast.Div)] = rec("div", f_div)
-        I.specs[("fn", id(round))] = rec("round", f_round)
-        I.specs[("fn", id(math.ceil))] = rec("math.ceil", f_ceil)
-        I.specs[("fn", id(math.floor))] = rec("math.floor", f_floor)
+        # true division of numbers gives a float; round(x, n) has the type of x; float(x) is a float
+        I.specs[("binop", ast.Div)] = with_fact(rec("div", f_div), lambda v, a: f_isfloat(v.t))
+        I.specs[("fn", id(round))] = with_fact(rec("round", f_round), lambda v, a: f_isfloat(v.t) == f_isfloat(to_term(a[0], "obj")))
+        I.specs[("fn", id(float))] = with_fact(rec("float", f_tofloat), lambda v, a: f_isfloat(v.t))
+        I.specs[("fn", id(math.ceil))] = to_int("math.ceil", f_ceil)
+        I.specs[("fn", id(math.floor))] = to_int("math.floor", f_floor)
+        I.specs[("fn", id(math.isfinite))] = lambda I_, st, args, kwargs, node: [(st, Sym(z3.Not(f_nonfinite(to_term(args[0], "obj"))), "bool"))]
+        I.specs[("fn", id(math.isinf))] = lambda I_, st, args, kwargs, node: [(st, Sym(f_nonfinite(to_term(args[0], "obj")), "bool"))]
+
+        def isinstance_obj(I_, st, args, kwargs, node):
+            v, cl = args
+            if cl == (float,):
+                return [(st, Sym(f_isfloat(v.t), "bool"))]
+            return None
+
+        I.specs["isinstance_obj"] = isinstance_obj
         I.specs[("fn", id(_unvalidated_math_attr))] = A.abstract_fn("math.<other>", returns="obj")
         I.specs[("fn", id(typing.cast))] = lambda I_, st, args, kwargs, node: [(st, args[1])]
 
@@ -428,7 +597,21 @@ class Round(VC):
 
     def setup(self, I, st):
         self.value, self.precision, self.method = sym("value", "obj"), sym("precision", "obj"), sym("method", "str")
+        x = z3.Const("x", Obj)
+        st.assume(z3.ForAll([x], z3.Implies(f_nonfinite(x), f_isfloat(x))))  # only floats are inf / nan
         return [self.value, self.precision, self.method], {}
+
+    def p_total(self, pre, out):
+        """no exception but FilterArgumentError (inf and nan are among the numbers of the quantifier)"""
+        if out.raised:
+            return out.value.cls is FilterArgumentError
+        return True
+
+    def p_float(self, pre, out):
+        """documented: "even if rounded to 0 precision, a float is returned" """
+        if out.raised:
+            return None
+        return f_isfloat(to_term(out.value, "obj"))
 
     def m(self, name):
         return self.method.t == z3.StringVal(name)
@@ -437,7 +620,9 @@ class Round(VC):
         valid = z3.Or(self.m("common"), self.m("ceil"), self.m("floor"))
         calls = [e for e in out.st.trace if e.kind == "call"]
         if out.raised:
-            if out.value.cls is not FilterArgumentError or calls:
+            if out.value.cls is not FilterArgumentError:
+                return None  # clause `total`
+            if calls:
                 return False
             return z3.Not(valid)
         if any(e.name == "math.<other>" or e.result is _unvalidated_math_attr for e in calls):
@@ -451,45 +636,71 @@ class Round(VC):
         ten = to_term(10, "obj")
         scale = f_pow(ten, p)
         r = to_term(out.value, "obj")
+        scaled = f_mul(v, scale)
+        # a value whose scaled form is inf/nan has no fractional part to round: it rounds to itself (as a float)
         return z3.And(
-            z3.Implies(self.m("common"), r == f_round(v, p)),
-            z3.Implies(self.m("ceil"), r == f_div(f_ceil(f_mul(v, scale)), scale)),
-            z3.Implies(self.m("floor"), r == f_div(f_floor(f_mul(v, scale)), scale)))
+            z3.Implies(self.m("common"), z3.Or(r == f_round(v, p), r == f_tofloat(f_round(v, p)), r == f_round(f_tofloat(v), p))),
+            z3.Implies(self.m("ceil"), r == z3.If(f_nonfinite(scaled), f_tofloat(v), f_div(f_ceil(scaled), scale))),
+            z3.Implies(self.m("floor"), r == z3.If(f_nonfinite(scaled), f_tofloat(v), f_div(f_floor(scaled), scale))))
 
-    posts = [("method_validated", p_validated), ("definition", p_result)]
+    posts = [("method_validated", p_validated), ("total", p_total), ("definition", p_result), ("returns_float", p_float)]
+
+    def finding_key(self, res):
+        w = res.witness or {}
+        return f"{w.get('method')}:{w.get('value_src')}"
 
     def concretize(self, model, pre, out):
-        return {"method": model_value(model, self.method.t)}
+        m = model_value(model, self.method.t)
+        scale = f_pow(to_term(10, "obj"), to_term(self.precision, "obj"))
+        if out.raised and out.value.cls is not FilterArgumentError:
+            src = "float('inf')"  # the path on which math.ceil / math.floor meet a non-finite number
+        elif model_value(model, f_isfloat(self.value.t)) is True:
+            src = "2.5"
+        else:
+            src = "42"
+        return {"method": m, "value_src": src, "precision": 0}
 
     def replay(self, w):
-        return replay_round({"value": 2.5, "precision": 0, "method": w["method"]})
+        return replay_round({"value": eval(w.get("value_src", "2.5")), "precision": w.get("precision", 0), "method": w["method"]})
 
 
 def spec_round(value, precision, method):
-    """exact definition over the rationals, for inputs where the float arithmetic is exact"""
+    """exact definition over the rationals (inputs where the float arithmetic is exact); a float in every case;
+    inf and nan round to themselves"""
     from fractions import Fraction
-    x = Fraction(value) * Fraction(10) ** precision
-    if method == "ceil":
-        k = math.ceil(x)
-    elif method == "floor":
-        k = math.floor(x)
-    else:
+    if isinstance(value, float) and not math.isfinite(value):
+        return value
+    if method == "common":
         return float(round(value, precision))
+    x = Fraction(value) * Fraction(10) ** precision
+    k = math.ceil(x) if method == "ceil" else math.floor(x)
     return float(Fraction(k) / Fraction(10) ** precision)
 
 
 def replay_round(w):
     value, precision, method = w["value"], w["precision"], w["method"]
+    if isinstance(value, str):
+        value = eval(value)  # "float('inf')" etc. (json has no non-finite numbers)
     try:
         r = F.do_round(value, precision, method)
     except FilterArgumentError:
         return (method in ("common", "ceil", "floor"), f"{value}|round({precision}, {method!r}) raised FilterArgumentError")
     except Exception as ex:  # noqa
-        return (True, f"{value}|round({precision}, {method!r}) raised {type(ex).__name__}: {ex}")
+        return (True, f"{value!r}|round({precision}, {method!r}) raised {type(ex).__name__}: {ex}")
     if method not in ("common", "ceil", "floor"):
         return (True, f"{value}|round({precision}, {method!r}) = {r!r}: undocumented method accepted")
     want = spec_round(value, precision, method)
-    return (r != want, f"{value}|round({precision}, {method!r}) = {r!r}, definition gives {want!r}")
+    same = r == want or (r != r and want != want)
+    return (not same or type(r) is not float, f"{value!r}|round({precision}, {method!r}) = {r!r} ({type(r).__name__}), definition gives the float {want!r}")
+
+
+def classify_round(w):
+    v = w["value"]
+    if isinstance(v, str):
+        return f"{w['method']}:non-finite" if w["method"] != "common" else None
+    if isinstance(v, int) and w["method"] == "common":
+        return "common:int-value"
+    return None
 
 
 # =====================================================================================
@@ -761,6 +972,83 @@ def classify_indent(w):
     return None
 
 
+# ---- indent with Markup operands: the text is escaped consistently or not at all ------------------------
+def check_indent_markup(w):
+    """w: {"s": text, "s_markup": bool, "width": str|int, "width_markup": bool, "first", "blank"}.
+    Only the indentation is inserted: either a plain result with the characters of the text untouched, or a Markup
+    result in which every line of the text is escaped exactly once (Markup text: as it is)."""
+    from markupsafe import Markup, escape
+    s = Markup(w["s"]) if w["s_markup"] else w["s"]
+    width = Markup(w["width"]) if w["width_markup"] else w["width"]
+    r = F.do_indent(s, width, w["first"], w["blank"])
+    ind = width if isinstance(width, str) else " " * width
+    any_markup = w["s_markup"] or w["width_markup"]
+    plain_ok = (not w["s_markup"]) and type(r) is str and spec_indent_ok(str(s), str(ind), w["first"], w["blank"], r)
+    markup_ok = any_markup and isinstance(r, Markup) and spec_indent_ok(str(escape(s)), str(escape(ind)), w["first"], w["blank"], str(r))
+    return (not (plain_ok or markup_ok), f"do_indent({s!r}, {width!r}, first={w['first']}, blank={w['blank']}) = {r!r}")
+
+
+def classify_indent_markup(w):
+    return f"text={'Markup' if w['s_markup'] else 'str'},width={'Markup' if w['width_markup'] else 'str'}"
+
+
+def cases_indent_markup(tier, seed):
+    texts = [t for t in strings(["a", "<", "&", "\n"], 4)] + ["if a < b:\nx = a & b\ny = '>'", "<a>\n<b>", "x\n\n<y>\n"]
+    for t in texts:
+        for sm in (False, True):
+            for width, wm in ((2, False), ("> ", False), ("&gt; ", True), ("  ", True)):
+                for first in (False, True):
+                    for blank in (False, True):
+                        yield {"s": t, "s_markup": sm, "width": width, "width_markup": wm, "first": first, "blank": blank}
+
+
+class IndentEscaping(VC):
+    """do_indent over the Markup-combinator dependency specs of contracts.c24 (ghost escape levels of the text):
+    every configuration (text / width Markup or plain, 1..3 lines, first, blank) returns either a plain string whose
+    text is at level 0 or a Markup string whose text is at level 1 - never a mixture, never escaped twice."""
+    prop = "C23"
+    target = "jinja2.filters:do_indent"
+
+    def __init__(self):
+        VC.__init__(self, "C23", "C23.indent")
+
+    def run(self, tier, seed):
+        from contracts import c24
+
+        def p_levels(vc, pre, out):
+            if out.raised:
+                return None
+            lv = set(c24.levels_of(out.value))
+            return lv <= ({1} if c24.is_markup(out.value) else {0})
+
+        class V(c24.MarkupArgsVC):
+            posts = [("escaping_consistent", p_levels)]
+
+            def describe(vc, out):
+                return (f"indent {c24.cfg_key('indent', vc.cfg)}: the text of the result is at escape levels {c24.levels_of(out.value)} "
+                        f"({'Markup' if c24.is_markup(out.value) else 'plain'} result); " + VC.describe(vc, out))
+
+        rs = []
+        for cfg in c24.markup_configs("indent"):
+            v = V("indent", cfg)
+            v.name = self.name
+            rs += v.run(tier, seed)
+        return rs
+
+    def finding_key(self, res):
+        from contracts import c24
+        w = res.witness or {}
+        return c24.cfg_key("indent", w["cfg"]) if "cfg" in w else "no-witness"
+
+    def replay(self, w):
+        c = w["cfg"]
+        n = c.get("lines", 2)
+        text = "\n".join(["if a < b:", "x = a & b", "y = '>'"][:n]) + ("\n" if n == 1 else "")
+        width, wm = {"M": ("&gt; ", True), "P": ("> ", False), "int": (2, False)}[c["width"]]
+        return check_indent_markup({"s": text if c["s"] == "P" else "a &lt; b\n" * n, "s_markup": c["s"] == "M", "width": width, "width_markup": wm,
+                                    "first": w.get("first", False), "blank": w.get("blank", False)})
+
+
 # ---- wordwrap ----------------------------------------------------------------------------
 _WS = re.compile(r"\s+")
 WRAP_ALPHA = ["a", "b", " ", "\n", "<", "-", "\t"]
@@ -910,10 +1198,53 @@ def cases_urlencode(tier, seed):
         yield {"kind": "dict", "items": [[k + "1", "x y"], ["k&2", k]]}
     for v in (7, 1.5, None, True):
         yield {"kind": "scalar", "value": v}
+    # every Mapping is encoded like the equal dict (signature: str | Mapping[str, Any] | Iterable[tuple[str, Any]])
+    for kind in MAPPING_KINDS:
+        for items in ([["ab", 1], ["q", "x y"]], [["ab", 1], ["id", 7]], [["k", "v"]], [["a&b", "c=d"], ["é", "/"]], []):
+            yield {"kind": kind, "items": items}
+
+
+class _PlainMapping(__import__("collections").abc.Mapping):
+    """a collections.abc.Mapping implementation that is not a dict"""
+
+    def __init__(self, d):
+        self._d = dict(d)
+
+    def __getitem__(self, k):
+        return self._d[k]
+
+    def __iter__(self):
+        return iter(self._d)
+
+    def __len__(self):
+        return len(self._d)
+
+
+MAPPING_KINDS = {
+    "mappingproxy": lambda d: __import__("types").MappingProxyType(d),
+    "chainmap": lambda d: __import__("collections").ChainMap(d),
+    "userdict": lambda d: __import__("collections").UserDict(d),
+    "abc_mapping": _PlainMapping,
+    "ordereddict": lambda d: __import__("collections").OrderedDict(d),
+}
+
+
+def classify_urlencode(w):
+    return "mapping-that-is-not-a-dict" if w["kind"] in MAPPING_KINDS and w["kind"] != "ordereddict" else None
 
 
 def check_urlencode(w):
     from urllib.parse import unquote, parse_qsl
+    if w["kind"] in MAPPING_KINDS:
+        d = dict(tuple(x) for x in w["items"])
+        from urllib.parse import quote_plus
+        want = "&".join("=".join(quote_plus(str(x), safe="") for x in kv) for kv in d.items())
+        arg = MAPPING_KINDS[w["kind"]](d)
+        try:
+            r = F.do_urlencode(arg)
+        except Exception as ex:  # noqa
+            return (True, f"do_urlencode({w['kind']}({d!r})) raised {type(ex).__name__}: {ex}; expected {want!r}")
+        return (r != want, f"do_urlencode({w['kind']}({d!r})) = {r!r}, expected {want!r}")
     if w["kind"] == "str":
         r = F.do_urlencode(w["s"])
         bad = unquote(r) != w["s"] or not _URL_OK.match(r) or r.count("/") != w["s"].count("/")  # "/" is not quoted
@@ -998,6 +1329,13 @@ def cases_round(tier, seed):
                 yield {"value": k / 8, "precision": p, "method": m}
     for m in ("Common", "trunc", "", "fabs", "ceil ", "__doc__", "pi", "round"):
         yield {"value": 2.5, "precision": 0, "method": m}
+    for m in ("common", "ceil", "floor"):
+        for v in (0, 1, 42, -7, 1234, True):  # integer inputs: a float is returned all the same
+            for p in (0, 2, -2):
+                yield {"value": v, "precision": p, "method": m}
+        for v in ("float('inf')", "float('-inf')", "float('nan')", "1e308", "-1e308"):  # non-finite / scaling overflows
+            for p in (0, 2):
+                yield {"value": v, "precision": p, "method": m}
 
 
 def cases_wrappers(tier, seed):
@@ -1010,14 +1348,17 @@ BOUNDED = [
     Bounded("C23.bounded.indent", cases_indent, check_indent,
             "all strings of length <= 5 over {a, space, \\n, <, \\r, \\t, U+2028} x width in {0, 2, '>>'} x first x blank, plus 200 seeded strings of length 6..40",
             classify_indent),
+    Bounded("C23.bounded.indent.markup", cases_indent_markup, check_indent_markup,
+            "all texts of length <= 4 over {a, <, &, \\n} and 3 longer ones, as str and Markup x width in {2, '> ', Markup('&gt; '), Markup('  ')} x first x blank, on the real MarkupSafe",
+            classify_indent_markup),
     Bounded("C23.bounded.wordwrap", cases_wordwrap, check_wordwrap,
             "all strings of length <= 5 over {a, b, space, \\n, <, -, \\t} x width 1..3 x break_long_words x break_on_hyphens, plus 150 seeded strings of length 10..80 x width in {1,4,9,20} x two wrap strings"),
     Bounded("C23.bounded.title", cases_title, check_title, "all strings of length <= 5 over {a, B, space, \\n, <, -, ß} plus 300 seeded strings"),
     Bounded("C23.bounded.wordcount", cases_wordcount, check_wordcount, "all strings of length <= 5 over {a, 1, space, \\n, <, _, é} plus 300 seeded strings"),
     Bounded("C23.bounded.striptags", cases_striptags, check_striptags, "all strings of length <= 5 over {a, B, space, \\n, <, >, &} plus seeded and hand-picked tag/comment/entity cases, as str, Markup and __html__ object"),
-    Bounded("C23.bounded.urlencode", cases_urlencode, check_urlencode, "all strings of length <= 5 over {a, space, \\n, <, /, %, é} (round trip through urllib.parse.unquote, output alphabet), all key/value pairs of length <= 2 over {a, space, &, =, +, /, é, %} as query strings"),
+    Bounded("C23.bounded.urlencode", cases_urlencode, check_urlencode, "all strings of length <= 5 over {a, space, \\n, <, /, %, é} (round trip through urllib.parse.unquote, output alphabet), all key/value pairs of length <= 2 over {a, space, &, =, +, /, é, %} as query strings; 5 small mappings as MappingProxyType, ChainMap, UserDict, an abc.Mapping class and OrderedDict", classify_urlencode),
     Bounded("C23.bounded.filesizeformat", cases_filesize, check_filesize, "base**k + {-2..2} and multiples around every unit boundary for k <= 9, decimal and binary, ints, floats, numeric strings"),
-    Bounded("C23.bounded.round", cases_round, lambda w: replay_round(w), "k/8 for |k| <= 40 x precision 0..2 x the three methods (float arithmetic exact), 8 undocumented method names"),
+    Bounded("C23.bounded.round", cases_round, lambda w: replay_round(w), "k/8 for |k| <= 40 x precision 0..2 x the three methods (float arithmetic exact), 8 undocumented method names, 6 integer values x precision in {0,2,-2}, inf/-inf/nan/+-1e308 x precision in {0,2}", classify_round),
     Bounded("C23.bounded.wrappers", cases_wrappers, lambda w: replay_wrappers(w), "13 sample values x argument samples for upper/lower/capitalize/center/trim/replace/format against the str methods"),
 ]
 
@@ -1029,7 +1370,7 @@ WRAPPERS = [Wrapper("upper", "upper", 0), Wrapper("lower", "lower", 0), Wrapper(
 
 TRUNCATE = [Truncate(pol, cl) for pol in (False, True) for cl in (("total", "short_unchanged"), ("long_cut",), ("last_word_dropped",))]
 
-TASKS = [*TRUNCATE, Round(), *WRAPPERS,
+TASKS = [*TRUNCATE, *[TruncateMixed(a, b) for a in "PM" for b in "PM"], Round(), IndentEscaping(), *WRAPPERS,
          Conv("int", False), Conv("int", True), Conv("float", False), Conv("float", True), *BOUNDED]
 
 META = {
